@@ -84,6 +84,8 @@ impl Application for App {
         }
 
         if StaticResourceController::is_matching(&request, connection) {
+            #[cfg(rws_verif)]
+            crate::verif::yield_point("app.static_matched");
             response = StaticResourceController::process(&request, response, connection);
             return Ok(response)
         }
